@@ -1814,4 +1814,238 @@ Proof.
   intros H. rewrite W6 in H. discriminate H.
 Qed.
 
+
 End Ops.
+
+(* ================================================================ Part 4: size discipline *)
+(* [extends s s' evs]: the operation appended exactly the events [evs] (oldest first);
+   [aextends]: the same for the allocation requests only (releases are left out: the size printed
+   for a release is the size recorded when the block was handed out) *)
+Definition allocs (tr : list event) : list event := filter is_alloc_event tr.
+Definition extends (s s' : mstate) (evs : list event) : Prop := ms_trace s' = rev evs ++ ms_trace s.
+Definition aextends (s s' : mstate) (evs : list event) : Prop :=
+  allocs (ms_trace s') = rev evs ++ allocs (ms_trace s).
+
+Lemma extends_refl s : extends s s [].
+Proof. reflexivity. Qed.
+Lemma extends_trans s s1 s2 e1 e2 : extends s s1 e1 -> extends s1 s2 e2 -> extends s s2 (e1 ++ e2).
+Proof. unfold extends. intros H1 H2. rewrite H2, H1, rev_app_distr, app_assoc. reflexivity. Qed.
+Lemma aextends_refl s : aextends s s [].
+Proof. reflexivity. Qed.
+Lemma aextends_trans s s1 s2 e1 e2 : aextends s s1 e1 -> aextends s1 s2 e2 -> aextends s s2 (e1 ++ e2).
+Proof. unfold aextends. intros H1 H2. rewrite H2, H1, rev_app_distr, app_assoc. reflexivity. Qed.
+Lemma extends_new_events s s' evs : extends s s' evs -> new_events s s' = evs.
+Proof.
+  unfold extends, new_events, trace_of. intros H. rewrite H, rev_app_distr, rev_involutive.
+  rewrite <- (rev_length (ms_trace s)). rewrite skipn_app, Nat.sub_diag, skipn_all. reflexivity.
+Qed.
+Lemma filter_all {A} (f : A -> bool) l : (forall x, In x l -> f x = true) -> filter f l = l.
+Proof.
+  induction l as [|x l IH]; intros H; [reflexivity|]. cbn [filter]. rewrite (H x (or_introl eq_refl)).
+  f_equal. apply IH. intros y Hy. apply H. right; exact Hy.
+Qed.
+Lemma extends_aextends s s' evs : Forall (fun e => is_alloc_event e = true) evs -> extends s s' evs -> aextends s s' evs.
+Proof.
+  unfold extends, aextends, allocs. intros Hf H. rewrite H, filter_app. f_equal.
+  apply filter_all. intros e He. rewrite Forall_forall in Hf. apply Hf. apply in_rev. exact He.
+Qed.
+Lemma aextends_new_events s s' evs : extends s s' (new_events s s') -> aextends s s' evs ->
+  allocs (new_events s s') = evs.
+Proof.
+  unfold extends, aextends, allocs. intros H1 H2. rewrite H1, filter_app in H2.
+  apply app_inv_tail in H2. rewrite <- (rev_involutive evs), <- H2.
+  set (l := new_events s s'). clearbody l. clear.
+  induction l as [|e l IH]; [reflexivity|]. cbn [rev filter]. rewrite filter_app. cbn [filter].
+  destruct (is_alloc_event e); cbn [rev]; rewrite ?rev_app_distr; cbn [rev app]; rewrite ?app_nil_r, IH; reflexivity.
+Qed.
+
+Lemma push_alloc_extends c sz s :
+  extends s (push_alloc c sz s) [if c then EvCalloc sz true else EvMalloc sz true].
+Proof. reflexivity. Qed.
+Lemma free_blk_aextends b s : aextends s (free_blk b s) [].
+Proof. unfold aextends, free_blk. destruct (remove_blk b (ms_live s)) as [[sz l]|]; reflexivity. Qed.
+Lemma bad_free_aextends s : aextends s (bad_free s) [].
+Proof. reflexivity. Qed.
+
+Definition text_req (o : option text) : list areq :=
+  match o with Some (c :: x) => [RText (length (c :: x))] | _ => [] end.
+Definition segs_req (l : list text) : list areq := flat_map (fun t => text_req (Some t)) l.
+
+Section Sizes.
+Variable cs : N.
+
+Lemma dup_text_trace t s t' s' : nofault s -> dup_text cs t s = (Some t', s') ->
+  extends s s' (map (req_event cs) (text_req (t_val t))).
+Proof.
+  intros Hnf. unfold dup_text. destruct (t_val t) as [[|c x]|].
+  - intros H; injection H as <- <-. apply extends_refl.
+  - rewrite (alloc_nf _ _ _ Hnf). intros H; injection H as <- <-. apply push_alloc_extends.
+  - intros H; injection H as <- <-. apply extends_refl.
+Qed.
+
+Lemma range_owner_trace done k t s t' done' s' : nofault s ->
+  range_owner cs done (2 ^ k) t s = (Some (t', done'), s') ->
+  extends s s' (map (req_event cs) (if N.testbit done k then [] else text_req (t_val t)))
+  /\ (forall j, j <> k -> N.testbit done' j = N.testbit done j).
+Proof.
+  intros Hnf. unfold range_owner. rewrite land_pow2, negb_involutive.
+  destruct (N.testbit done k).
+  - intros H; injection H as <- <- <-. split; [apply extends_refl|reflexivity].
+  - destruct (t_val t) as [[|c x]|] eqn:E.
+    + intros H; injection H as <- <- <-. split; [apply extends_refl|reflexivity].
+    + destruct (dup_text cs t s) as [[t1|] s1] eqn:E1; [|discriminate].
+      intros H; injection H as <- <- <-. split.
+      * pose proof (dup_text_trace _ _ _ _ Hnf E1) as H. rewrite E in H. exact H.
+      * intros j Hj. rewrite testbit_lor_pow2. apply N.eqb_neq in Hj. rewrite N.eqb_sym, Hj. apply orb_false_r.
+    + intros H; injection H as <- <- <-. split; [apply extends_refl|reflexivity].
+Qed.
+
+Lemma own_segs_trace rest : forall acc s segs s', nofault s -> own_segs cs acc rest s = (Some segs, s') ->
+  extends s s' (map (req_event cs) (segs_req (map sg_text rest))).
+Proof.
+  induction rest as [|sg r IH]; intros acc s segs s' Hnf; cbn [own_segs map].
+  - intros H; injection H as <- <-. apply extends_refl.
+  - unfold segs_req. cbn [flat_map]. destruct (sg_text sg) as [|c x] eqn:Et.
+    + intros H. apply (IH _ _ _ _ Hnf H).
+    + rewrite (alloc_nf _ _ _ Hnf). intros H.
+      rewrite map_app. change (map (req_event cs) (text_req (Some (c :: x)))) with [EvMalloc (tlen (c :: x) * cs) true].
+      eapply extends_trans; [apply (push_alloc_extends false (tlen (c :: x) * cs) s)|].
+      apply (IH _ _ _ _ (st_le_nofault _ _ (push_alloc_le _ _ _) Hnf) H).
+Qed.
+
+Definition tstage_spec (st : stage) (k : N) (pl : muri -> N -> list areq) : Prop :=
+  forall m done s m' done' s', nofault s -> st m done s = (Some (m', done'), s') ->
+  extends s s' (map (req_event cs) (pl m done))
+  /\ (forall j, j <> k -> N.testbit done' j = N.testbit done j).
+
+Lemma e_text_trace k get set :
+  tstage_spec (e_text cs (2 ^ k) get set) k (fun m done => if N.testbit done k then [] else text_req (t_val (get m))).
+Proof.
+  intros m done s m' done' s' Hnf. unfold e_text.
+  destruct (range_owner cs done (2 ^ k) (get m) s) as [[[t d]|] z] eqn:E; [|discriminate].
+  intros H; injection H as <- <- <-. apply (range_owner_trace _ _ _ _ _ _ _ Hnf E).
+Qed.
+
+Definition host_plan (m : muri) (done : N) : list areq :=
+  if N.testbit done 2 then []
+  else match t_val (m_ipFuture m) with
+       | Some _ => text_req (t_val (m_ipFuture m))
+       | None => text_req (t_val (m_hostText m))
+       end.
+
+Lemma host_step_trace : tstage_spec (host_step cs) 2 host_plan.
+Proof.
+  intros m done s m' done' s' Hnf. unfold host_step, host_plan.
+  change B_HOST with (2 ^ 2)%N. rewrite land_pow2, negb_involutive.
+  destruct (N.testbit done 2) eqn:Eb.
+  - intros H; injection H as <- <- <-. split; [apply extends_refl|reflexivity].
+  - destruct (t_val (m_ipFuture m)) as [x|] eqn:Ef.
+    + destruct (range_owner cs done (2 ^ 2) (m_ipFuture m) s) as [[[t d]|] z] eqn:E; [|discriminate].
+      intros H; injection H as <- <- <-.
+      pose proof (range_owner_trace _ _ _ _ _ _ _ Hnf E) as H. rewrite Eb, Ef in H. exact H.
+    + destruct (t_val (m_hostText m)) as [x|] eqn:Eh.
+      * destruct (range_owner cs done (2 ^ 2) (m_hostText m) s) as [[[t d]|] z] eqn:E; [|discriminate].
+        intros H; injection H as <- <- <-.
+        pose proof (range_owner_trace _ _ _ _ _ _ _ Hnf E) as H. rewrite Eb, Eh in H. exact H.
+      * intros H; injection H as <- <- <-. split; [apply extends_refl|reflexivity].
+Qed.
+
+Lemma path_step_trace :
+  tstage_spec (path_step cs) 3 (fun m done => if N.testbit done 3 then [] else segs_req (map sg_text (m_segs m))).
+Proof.
+  intros m done s m' done' s' Hnf. unfold path_step.
+  change B_PATH with (2 ^ 3)%N. rewrite land_pow2, negb_involutive.
+  destruct (N.testbit done 3) eqn:Eb.
+  - intros H; injection H as <- <- <-. split; [apply extends_refl|reflexivity].
+  - destruct (own_segs cs [] (m_segs m) s) as [[segs|] z] eqn:E; [|discriminate].
+    intros H; injection H as <- <- <-. split; [apply (own_segs_trace _ _ _ _ _ Hnf E)|].
+    intros j Hj. change (N.pos (2 ^ 3)) with (2 ^ 3)%N. rewrite testbit_lor_pow2. apply N.eqb_neq in Hj. rewrite N.eqb_sym, Hj. apply orb_false_r.
+Qed.
+
+Lemma e_port_trace : tstage_spec (e_port cs) 6 (fun m _ => text_req (t_val (m_portText m))).
+Proof.
+  intros m done s m' done' s' Hnf. unfold e_port.
+  destruct (dup_text cs (m_portText m) s) as [[t|] z] eqn:E; [|discriminate].
+  intros H; injection H as <- <- <-. split; [apply (dup_text_trace _ _ _ _ Hnf E)|reflexivity].
+Qed.
+
+(* the requests of the engine, counted in characters: a function of the values and the done-mask *)
+Definition engine_plan (done : N) (u : uri) : list areq :=
+  (if N.testbit done 0 then [] else text_req (scheme u))
+  ++ (if N.testbit done 1 then [] else text_req (userInfo u))
+  ++ (if N.testbit done 4 then [] else text_req (query u))
+  ++ (if N.testbit done 5 then [] else text_req (fragment u))
+  ++ (if N.testbit done 2 then []
+      else match ipFuture u with Some _ => text_req (ipFuture u) | None => text_req (hostText u) end)
+  ++ (if N.testbit done 3 then [] else segs_req (pathSegs u))
+  ++ text_req (portText u).
+
+Lemma engine_trace lo own m done s b m' done' s' :
+  G lo own m s -> sub done own -> m_owner m = false ->
+  make_owner_engine cs m done s = (b, m', done', s') ->
+  extends s s' (map (req_event cs) (engine_plan done (erase m))).
+Proof.
+  intros HG Hs Ho. pose proof HG as (Hnf & _).
+  destruct (e_scheme_spec cs _ _ _ _ _ HG Hs Ho) as (m1 & d1 & o1 & s1 & E1 & G1 & S1 & U1 & R1 & W1 & L1 & B1).
+  destruct (e_user_spec cs _ _ _ _ _ G1 S1 W1) as (m2 & d2 & o2 & s2 & E2 & G2 & S2 & U2 & R2 & W2 & L2 & B2).
+  destruct (e_query_spec cs _ _ _ _ _ G2 S2 W2) as (m3 & d3 & o3 & s3 & E3 & G3 & S3 & U3 & R3 & W3 & L3 & B3).
+  destruct (e_frag_spec cs _ _ _ _ _ G3 S3 W3) as (m4 & d4 & o4 & s4 & E4 & G4 & S4 & U4 & R4 & W4 & L4 & B4).
+  destruct (host_step_spec cs _ _ _ _ _ G4 S4 W4) as (m5 & d5 & o5 & s5 & E5 & G5 & S5 & U5 & R5 & W5 & L5 & B5).
+  destruct (path_step_spec cs _ _ _ _ _ G5 S5 W5) as (m6 & d6 & o6 & s6 & E6 & G6 & S6 & U6 & R6 & W6 & L6 & B6).
+  destruct (e_port_spec cs _ _ _ _ _ G6 S6 W6) as (m7 & d7 & o7 & s7 & E7 & G7 & S7 & U7 & R7 & W7 & L7 & B7).
+  rewrite (engine_chain cs _ _ _ _ _ _ _ _ _ _ _ _ _ _ _ _ _ _ _ _ _ _ _ _ E1 E2 E3 E4 E5 E6 E7).
+  intros H; injection H as <- <- <- <-.
+  pose proof (st_le_nofault _ _ L1 Hnf) as N1. pose proof (st_le_nofault _ _ L2 N1) as N2.
+  pose proof (st_le_nofault _ _ L3 N2) as N3. pose proof (st_le_nofault _ _ L4 N3) as N4.
+  pose proof (st_le_nofault _ _ L5 N4) as N5. pose proof (st_le_nofault _ _ L6 N5) as N6.
+  destruct (e_text_trace 0 m_scheme set_m_scheme _ _ _ _ _ _ Hnf E1) as [T1 K1].
+  destruct (e_text_trace 1 m_userInfo set_m_userInfo _ _ _ _ _ _ N1 E2) as [T2 K2].
+  destruct (e_text_trace 4 m_query set_m_query _ _ _ _ _ _ N2 E3) as [T3 K3].
+  destruct (e_text_trace 5 m_fragment set_m_fragment _ _ _ _ _ _ N3 E4) as [T4 K4].
+  destruct (host_step_trace _ _ _ _ _ _ N4 E5) as [T5 K5].
+  destruct (path_step_trace _ _ _ _ _ _ N5 E6) as [T6 K6].
+  destruct (e_port_trace _ _ _ _ _ _ N6 E7) as [T7 K7].
+  cbv beta in R1, R2, R3, R4, R5, R6.
+  assert (N.testbit d1 1 = N.testbit done 1) as Z1 by (rewrite K1 by discriminate; reflexivity).
+  assert (N.testbit d2 4 = N.testbit done 4) as Z2 by (rewrite K2, K1 by discriminate; reflexivity).
+  assert (N.testbit d3 5 = N.testbit done 5) as Z3 by (rewrite K3, K2, K1 by discriminate; reflexivity).
+  assert (N.testbit d4 2 = N.testbit done 2) as Z4 by (rewrite K4, K3, K2, K1 by discriminate; reflexivity).
+  assert (N.testbit d5 3 = N.testbit done 3) as Z5 by (rewrite K5, K4, K3, K2, K1 by discriminate; reflexivity).
+  cbv beta in T1, T2, T3, T4, T6, T7. unfold host_plan in T5.
+  rewrite Z1 in T2. rewrite Z2 in T3. rewrite Z3 in T4. rewrite Z4 in T5. rewrite Z5 in T6.
+  change (t_val (m_scheme m)) with (scheme (erase m)) in T1.
+  change (t_val (m_userInfo m1)) with (userInfo (erase m1)) in T2.
+  change (t_val (m_query m2)) with (query (erase m2)) in T3.
+  change (t_val (m_fragment m3)) with (fragment (erase m3)) in T4.
+  change (t_val (m_ipFuture m4)) with (ipFuture (erase m4)) in T5.
+  change (t_val (m_hostText m4)) with (hostText (erase m4)) in T5.
+  change (map sg_text (m_segs m5)) with (pathSegs (erase m5)) in T6.
+  change (t_val (m_portText m6)) with (portText (erase m6)) in T7.
+  rewrite R6, R5, R4, R3, R2, R1 in T7. rewrite R5, R4, R3, R2, R1 in T6. rewrite R4, R3, R2, R1 in T5.
+  rewrite R3, R2, R1 in T4. rewrite R2, R1 in T3. rewrite R1 in T2.
+  unfold engine_plan. rewrite !map_app.
+  eapply extends_trans; [exact T1|]. eapply extends_trans; [exact T2|]. eapply extends_trans; [exact T3|].
+  eapply extends_trans; [exact T4|]. eapply extends_trans; [exact T5|]. eapply extends_trans; [exact T6|exact T7].
+Qed.
+
+(* the requests of make-owner, counted in characters: a function of the values only *)
+Definition owner_plan (u : uri) : list areq := engine_plan 0 u.
+
+Lemma owner_plan_eq u :
+  owner_plan u =
+  text_req (scheme u) ++ text_req (userInfo u) ++ text_req (query u) ++ text_req (fragment u)
+  ++ (match ipFuture u with Some _ => text_req (ipFuture u) | None => text_req (hostText u) end)
+  ++ segs_req (pathSegs u) ++ text_req (portText u).
+Proof. reflexivity. Qed.
+
+Lemma make_owner_m_trace m s rc m' s' :
+  nofault s -> m_owner m = false -> mwf_host m -> text_blocks m = [] ->
+  make_owner_m cs m s = (rc, m', s') ->
+  extends s s' (map (req_event cs) (owner_plan (erase m))).
+Proof.
+  intros Hnf Ho Hh Hb. unfold make_owner_m. rewrite Ho.
+  pose proof (G_start m s Hnf Hh Hb) as HG.
+  destruct (engine_nf cs _ _ _ _ _ HG (sub_refl _) Ho) as (m1 & d1 & o1 & s1 & E & _).
+  pose proof (engine_trace _ _ _ _ _ _ _ _ _ HG (sub_refl _) Ho E) as T. rewrite E.
+  intros H; injection H as <- <- <-. exact T.
+Qed.
